@@ -44,3 +44,8 @@ impl<T: DerefMut> ForwardMut for T {}
 unsafe impl<T: Opaquable> Opaquable for Fwd<T> {
     type OpaqueTarget = Fwd<T::OpaqueTarget>;
 }
+
+#[cfg(kani)]
+mod verif_kani {
+    include!(concat!(env!("H33P_CGLUE_VERIF_DIR"), "/forward.rs"));
+}
